@@ -63,8 +63,11 @@ LltOK(e) ==
   /\ EqV(MulVec(A, x, n), b) /\ (n <= 5 => EqM(MulR(A, inv, n), IdR(n))) /\ e.inv2 = e.inv
   /\ REq(det, dA) /\ DetLog2OK(dA, e.lnd)
 
+\* the strided triangular solves (right-hand side = a column of a matrix): the same solution as the unstrided pair, the other
+\* columns untouched
+StridedOK(e) == "xs" \in DOMAIN e => e.xs = e.x /\ e.xs_ok = 1
 Accept(e) ==
-  /\ Exact(e.A)
+  /\ Exact(e.A) /\ StridedOK(e)
   /\ CASE e.kind = 1 -> e.rc = 0 /\ PluOK(e) /\ ScaledOK(e)
        [] e.kind = 2 -> e.rc # 0                     \* an exactly vanishing pivot is reported as failure
        [] e.kind = 3 -> e.rc = 0 /\ LdlOK(e) /\ ScaledOK(e)
